@@ -21,7 +21,7 @@ func init() {
 			{"C20.names", "file names are <base>/<id[0:4]>/<id> + extension chosen by the Uncompressed option", 5, c20Names},
 			{"C20.one-switch", "the Compressor layer is selected by the same option as the extension", 1, c20OneSwitch},
 			{"C20.write-format", "the local store writes and reads through its own converters and names", 3, c20WriteFormat},
-			{"C20.filters", "verify/prune extension filters follow the option", 10, c16FormatFilter},
+			{"C20.filters", "verify/prune extension filters follow the option", 5, c16FormatFilter},
 			{"C20.prune-own-format", "prune removes objects named from the parsed id (the store's own format), only on a keep-set miss", 4, c16KeepSet},
 			{"C20.raw-storage", "a chunk's stored bytes are passed on unconverted only where the converters match", 1, func(c *Ctx) { c.rawStorageGuarded() }},
 			{"C20.converters-equal", "Converters.equal answers true only for lists of equal length (it licenses passing stored bytes on)", 2, c14ConvertersEqual},
